@@ -3,7 +3,7 @@
 D=$1; shift
 cd /repo || exit 2
 if ! git apply --check "$D/patch.diff" 2>/dev/null; then
-  if ! git apply --3way "$D/patch.diff" 2>/dev/null; then echo "PATCH DOES NOT APPLY: $D"; git checkout -q -- . ; git reset -q; exit 3; fi
+  if ! git apply --3way "$D/patch.diff" 2>/dev/null; then echo "PATCH DOES NOT APPLY: $D"; git reset -q --hard HEAD; exit 3; fi
   git reset -q
 else
   git apply "$D/patch.diff"
@@ -15,5 +15,5 @@ for c in "$@"; do
   echo "  $c: $(echo "$out" | tail -1)"
   echo "$out" | grep '^VIOLATION' | head -3 | sed 's/^/     /'
 done
-git checkout -q -- .
+git reset -q --hard HEAD
 git status --short | head -3
